@@ -7,6 +7,7 @@ import (
 	"io"
 	"log/slog"
 	"net"
+	"os"
 	"path/filepath"
 	"syscall"
 	"time"
@@ -66,6 +67,28 @@ func isTemporaryAcceptError(err error) bool {
 	return false
 }
 
+// lateReadGrace is a time given to read bytes which are already here when read deadline is found expired.
+const lateReadGrace = time.Millisecond
+
+// lateReader reads from connection with read deadline. Expired deadline fails a read before it looks for data,
+// so request which arrived in time is lost if server is busy and gets to reading it (or the rest of it:
+// path, payload) too late. Such read is repeated once with minimal deadline: data which is here is returned,
+// and if there is nothing, read fails as before.
+type lateReader struct {
+	conn net.Conn
+}
+
+func (r lateReader) Read(p []byte) (int, error) {
+	n, err := r.conn.Read(p)
+	if n == 0 && errors.Is(err, os.ErrDeadlineExceeded) {
+		if r.conn.SetReadDeadline(time.Now().Add(lateReadGrace)) == nil {
+			n, err = r.conn.Read(p)
+		}
+	}
+
+	return n, err
+}
+
 func (s *Server[StateT]) setConnReadDeadline(conn net.Conn) error {
 	if s.ReadTimeout <= 0 {
 		return nil
@@ -85,7 +108,7 @@ func (s *Server[StateT]) deriveConnContext(conn net.Conn) context.Context {
 func (s *Server[StateT]) serveConn(conn net.Conn) {
 	ctx := &Context[StateT]{
 		RemoteAddr: conn.RemoteAddr(),
-		rd:         proto.Reader{Reader: conn},
+		rd:         proto.Reader{Reader: lateReader{conn}},
 		wr:         proto.Writer{Writer: conn},
 	}
 	ctx.Context, ctx.cancel = context.WithCancel(s.deriveConnContext(conn))
